@@ -21,7 +21,7 @@ GIVER_ID = "c16.giver"
 SERIALIZERS = ["serpent", "json", "msgpack"]
 NOBJ, NCLS = 4, 2
 QUIRKS = ["unreg_id_keeps_daemon_mark", "unreg_obj_trusts_stale_id", "force_keeps_displaced_marks",
-          "weak_double_register", "finalizer_unregisters_id"]
+          "weak_double_register", "finalizer_unregisters_id", "uri_trusts_stale_id"]
 
 # truthiness / comparison shapes of pool objects: what the object looks like to `if obj:` and `==`
 SHAPES = ["plain", "len0", "lenstate", "boolfalse", "eqhash"]
@@ -492,10 +492,9 @@ def oracle(case, obs):
                 if i not in after:
                     flag("uri-names-unregistered-id", "%s: %s reports id %s, which is not registered (the object is %s)" % (
                         at, "uriFor" if k == "uri_obj" else "proxyFor", r[1], "registered under %s" % ids if ids else "not registered"))
-                elif ids and i not in ids:
-                    flag("uri-names-other-object", "%s: the object is registered under %s but %s is reported, which reaches %s" % (at, ids, r[1], after[i][0]))
-                # (an unregistered object whose stale _pyroId has meanwhile been given to another object gets that
-                #  object's uri: tolerated, tests pin that unregister-by-id leaves _pyroId; counted in the distribution)
+                elif i not in ids:
+                    flag("uri-names-other-object", "%s: the object is %s but %s is reported, which reaches %s" % (
+                        at, "registered under %s" % ids if ids else "not registered", r[1], after[i][0]))
             elif ids and not alias_excuse(t, after):
                 flag("uri-refused-for-registered-object", "%s: the object is registered under %s but got %s" % (at, ids, r))
         elif k == "proxy_id":
@@ -622,6 +621,8 @@ WITNESS = {
     "weak_double_register": [["reg", ["o", 0], ["name", 0], False, True], ["reg", ["o", 0], ["name", 1], False, False]],
     "finalizer_unregisters_id": [["reg", ["o", 0], ["name", 0], False, True], ["unreg_obj", ["o", 0]],
                                  ["reg", ["o", 1], ["name", 0], False, False], ["gc", 0], ["call", ["name", 0]]],
+    "uri_trusts_stale_id": [["reg", ["o", 0], ["name", 0], False, False], ["unreg_id", ["name", 0]],
+                            ["reg", ["c", 1], ["name", 0], False, False], ["uri_obj", ["o", 0]]],
 }
 ALIAS_WITNESS = [["reg", ["o", 0], ["name", 0], False, False], ["reg", ["o", 0], ["name", 1], True, False],
                  ["unreg_obj", ["o", 0]], ["call", ["name", 0]], ["return", 0]]
@@ -635,7 +636,8 @@ def probe_quirks():
                    "unreg_obj_trusts_stale_id": last != ["reached", ["o", 1]],
                    "force_keeps_displaced_marks": last != ["value"],
                    "weak_double_register": last[0] == "uri",
-                   "finalizer_unregisters_id": last != ["reached", ["o", 1]]}[name]
+                   "finalizer_unregisters_id": last != ["reached", ["o", 1]],
+                   "uri_trusts_stale_id": last[0] == "uri"}[name]
     return q
 
 
